@@ -28,7 +28,8 @@ func (c02) Info() core.Info {
 		Title: "Scan narrowing never loses a row",
 		Level: "exploration",
 		Rule: "all predicate trees of depth <= 2 (quick) / 3 (thorough, reduced pool) over key-constraining atoms (key op l and l op key for = != ^= > >= < <=, IN lists of 1..2 (3) literals, BETWEEN) and opaque atoms (value = 'x', true, false), literals from {'',a,ab,b,c}, connectives & | and or !; executed on stores over a key universe of all strings of length 0..3 over {0,a,b,c,z} (the empty key included), which the check proves (at run time) realises every order/prefix relation vector a key can have to the literal pool. " +
-			"Oracles: (a) rows of the optimised plan == pairs accepted by FilterExec.Filter of the un-optimised parse, in key order, row and batch mode; (b) region of the chosen scan node ⊇ satisfying keys; (c) `delete where P` leaves prior − satisfying keys. Non-trivial: access path narrower than a full scan and predicate satisfiable on the store. Distinct: (predicate text, store).",
+			"Oracles: (a) rows of the optimised plan == pairs accepted by FilterExec.Filter of the un-optimised parse, in key order, row and batch mode; (b) region of the chosen scan node ⊇ satisfying keys; (c) `delete where P` leaves prior − satisfying keys. Non-trivial: access path narrower than a full scan and predicate satisfiable on the store. Distinct: (predicate text, store)." +
+			" Family rr3: every and/or tree (both shapes, four operator pairs) of three atoms from the 40 half-bounded ranges, BETWEENs, points and prefixes over the ordered literals {'',a,b,c}, on a 12-key store holding the empty key (quick: row mode; thorough: all configurations and DELETE).",
 		Assumptions: []string{
 			"the un-optimised per-pair filter (FilterExec.Filter) is the yardstick here; its own semantics are C01's subject",
 			"key universe adequacy is checked, not assumed: relation vectors (<,=,>, has-prefix, is-prefix-of) of all strings up to length 4 over a 7-symbol super-alphabet are all realised in the universe",
